@@ -135,8 +135,9 @@ def run(ctx):
         want_ones = int(sp["ones"], 16)
         got_f = {k: (v[0], v[2]) if v[0] != "scattered" else v for k, v in fields.items()}
         want_f = {k: tuple(v) for k, v in sp["fields"].items()}
-        # the spec speaks of positions; an operand narrower than its field (u8 vector in an 8-bit field) is fine, wider is R2's business
-        ok_pos = set(got_f) == set(want_f) and all(got_f[k][0] == want_f[k][0] for k in want_f if got_f[k][0] != "scattered")
+        # position and width must both equal the ISA's: a wider operand spills (also R2), a narrower one drops the sign/high bits
+        # of values the parser accepts for that field (C04.R2 ties the parser's width to the same table)
+        ok_pos = set(got_f) == set(want_f) and all(got_f[k] == want_f[k] for k in want_f if got_f[k][0] != "scattered")
         ok_align = all(fields[k][1] == 0 for k in fields if fields[k][0] != "scattered")
         ok = ones == want_ones and ok_pos and ok_align and unk == 0
         ctx.oblig(ok, {"stmt": name, "ones": hex(ones), "fields": {k: list(v) for k, v in got_f.items()}} if name in ("Add", "LoadOffs", "Call") else None, "layout == ISA")
